@@ -3,6 +3,8 @@
 A matrix is given as two integer matrices (JA, JB) plus a common offset (oa, ob) and stands for
 ((JA + oa) + 2^sexp * (JB + ob)) * 2^e; it is built in exact integer arithmetic and must be exactly
 representable in the requested dtype (checked; anything else is a machinery failure).
+Aggregators are OBJECTS (AggObject): a fresh one per call, or one object passed through a history of calls
+(Robust!HistSpec); for Krum the weights computed in each call are captured by a forward hook.
 All expected values come from TLC (scenario export) or are checked by TLC (trace validation); the
 only arithmetic done here is building tensors, exact Fractions of TLC's rationals, and the derived
 rounding allowances.
@@ -44,25 +46,44 @@ def exact_value(rec: dict, sexp: int, e: int, off=(0, 0)) -> Fraction:
     return ((frac(rec["a"]) + off[0]) + (frac(rec["b"]) + off[1]) * Fraction(2) ** sexp) * Fraction(2) ** e
 
 
-def call(factory, J):
-    """-> (exception type name or 'none', output tensor or None, aggregator)"""
-    try:
-        agg = factory()
-    except Exception as ex:                              # noqa: BLE001
-        return f"ctor:{type(ex).__name__}", None, None
-    try:
-        out = agg(J)
-    except Exception as ex:                              # noqa: BLE001
-        return type(ex).__name__, None, agg
-    return "none", out, agg
+class AggObject:
+    """One aggregator OBJECT: built once, called any number of times (a fresh one per call = a history of
+    length 1).  For Krum the weights used IN the call are captured by a forward hook on the weighting."""
+
+    def __init__(self, kind: str, par: int, k: int | None = None):
+        self.kind, self.exc, self.agg, self.weights = kind, "none", None, None
+        try:
+            if kind == "tm":
+                from torchjd.aggregation import TrimmedMean
+                self.agg = TrimmedMean(trim_number=par)
+            else:
+                from torchjd.aggregation import Krum
+                self.agg = Krum(n_byzantine=par, n_selected=k)
+        except Exception as ex:                              # noqa: BLE001
+            self.exc = f"ctor:{type(ex).__name__}"
+        if self.agg is not None and kind == "krum":
+            self.agg.weighting.register_forward_hook(self._hook)
+
+    def _hook(self, _mod, _inp, out):
+        self.weights = out.detach().clone()
+
+    def __call__(self, J):
+        """-> (exception type name or 'none', output tensor or None)"""
+        self.weights = None
+        if self.agg is None:
+            return self.exc, None
+        try:
+            out = self.agg(J)
+        except Exception as ex:                              # noqa: BLE001
+            return type(ex).__name__, None
+        return "none", out
 
 
 # ----------------------------------------------------------------------------- TrimmedMean
-def tm_observe(b: int, J: torch.Tensor):
-    from torchjd.aggregation import TrimmedMean
-
-    exc, out, _ = call(lambda: TrimmedMean(trim_number=b), J)
-    return exc, out
+def tm_observe(b: int, J: torch.Tensor, obj: AggObject | None = None):
+    """obj: the object to call (a history); None = a fresh TrimmedMean(b)"""
+    obj = obj or AggObject("tm", b)
+    return obj(J)
 
 
 def tm_compare(out: torch.Tensor, expected: list[Fraction], lo: list[Fraction], hi: list[Fraction], dtype: str):
@@ -86,15 +107,17 @@ def tm_compare(out: torch.Tensor, expected: list[Fraction], lo: list[Fraction], 
 
 
 # ----------------------------------------------------------------------------- Krum
-def krum_observe(f: int, k: int, J: torch.Tensor):
-    """-> dict(exc, sel (1-based rows with non-zero weight), wok, avgok, detail)"""
-    from torchjd.aggregation import Krum
-
-    exc, out, agg = call(lambda: Krum(n_byzantine=f, n_selected=k), J)
+def krum_observe(f: int, k: int, J: torch.Tensor, obj: AggObject | None = None):
+    """-> dict(exc, sel (1-based rows with non-zero weight), wok, avgok, detail)
+    obj: the object to call (a history); None = a fresh Krum(f, k)"""
+    obj = obj or AggObject("krum", f, k)
+    exc, out = obj(J)
     rec = {"exc": exc, "sel": [], "wok": True, "avgok": True, "detail": ""}
     if exc != "none":
         return rec
-    w = agg.weighting(J)
+    w = obj.weights                              # the weights of THIS call
+    if w is None:                                # the weighting was not reached through Module.__call__
+        w = obj.agg.weighting(J)
     m, dtype = J.shape[0], J.dtype
     nz = [i for i in range(m) if float(w[i]) != 0.0]
     rec["sel"] = [i + 1 for i in nz]
